@@ -16,7 +16,8 @@ package oidc
 
 import (
 	"context"
-	"math/rand"
+	"crypto/rand"
+	"math/big"
 	"time"
 
 	"github.com/redis/go-redis/v9"
@@ -146,10 +147,9 @@ var (
 )
 
 type (
-	// randomGenerator is a session generator that uses random strings.
-	randomGenerator struct {
-		rand *rand.Rand
-	}
+	// randomGenerator is a session generator that uses random strings
+	// read from the cryptographically secure random number generator.
+	randomGenerator struct{}
 
 	// staticGenerator is a session generator that uses static strings.
 	staticGenerator struct {
@@ -162,9 +162,7 @@ type (
 
 // NewRandomGenerator creates a new random session generator.
 func NewRandomGenerator() SessionGenerator {
-	return &randomGenerator{
-		rand: rand.New(rand.NewSource(time.Now().UnixNano())),
-	}
+	return &randomGenerator{}
 }
 
 func (r randomGenerator) GenerateSessionID() string {
@@ -185,9 +183,16 @@ func (r randomGenerator) GenerateCodeVerifier() string {
 
 func (r *randomGenerator) generate(n int) string {
 	const charset = "abcdefghijklmnopqrstuvwxyzABCDEFGHIJKLMNOPQRSTUVWXYZ0123456789"
+	max := big.NewInt(int64(len(charset)))
 	b := make([]byte, n)
 	for i := range b {
-		b[i] = charset[r.rand.Intn(len(charset))]
+		// Session ids, state and nonce must not be predictable: a generator seeded
+		// with the current time makes them a function of the request instant.
+		idx, err := rand.Int(rand.Reader, max)
+		if err != nil {
+			panic(err) // crypto/rand.Reader never fails on supported platforms
+		}
+		b[i] = charset[idx.Int64()]
 	}
 	return string(b)
 }
